@@ -187,6 +187,11 @@ func c11(tier string, args []string) int {
 		// victim a share of that polynomial: the deal contradicts the commitments it BROADCAST
 		{"commitments-told-privately", dpf.StateDkgCommitsAwaitConfirmations, onlyV},
 	}
+	// the dealer sends the victim a garbled deal and HOLDS BACK its deals to everybody else until
+	// the victim has reported the failure: the others are then still collecting deals
+	devs = append(devs, deviation{"deal-garbled-others-kept-waiting", dpf.StateDkgDealsAwaitConfirmations, onlyV})
+	// the garbled deal carries a creation time ten years ahead (the sender chooses it)
+	devs = append(devs, deviation{"deal-garbled-and-dated-in-the-future", dpf.StateDkgDealsAwaitConfirmations, onlyV})
 	for _, m := range world.SortedKeys(innerDealMutations) {
 		devs = append(devs, deviation{"inner-deal-" + m, dpf.StateDkgCommitsAwaitConfirmations, onlyV})
 	}
@@ -226,6 +231,7 @@ func runC11(r *kit.Run, n, t, D, V int, dv deviation, allOrders bool) {
 	label := fmt.Sprintf("n=%d t=%d dealer=%d victim=%d %s", n, t, D, V, dv.Kind)
 	var run *DKGRun
 	applied := false
+	var withheld []storage.Message
 	unbuildable := false
 	deviate := func(node int, op *types.Operation) func(res *types.Operation) {
 		if node != D {
@@ -323,6 +329,26 @@ func runC11(r *kit.Run, n, t, D, V int, dv deviation, allOrders bool) {
 					var other requests.DKGProposalDealConfirmationRequest
 					_ = json.Unmarshal(res.ResultMsgs[wi].Data, &other)
 					req.Deal = other.Deal
+				case "deal-garbled-others-kept-waiting":
+					req.Deal = req.Deal[:len(req.Deal)*2/3]
+					var keep []storage.Message
+					for i := range res.ResultMsgs {
+						if i == vi || res.ResultMsgs[i].RecipientAddr == w.Nodes[D].Name {
+							keep = append(keep, res.ResultMsgs[i])
+						} else {
+							m := res.ResultMsgs[i]
+							withheld = append(withheld, world.SignedMessage(m.DkgRoundID, m.Event, m.Data, w.Nodes[D].Name, w.Nodes[D].KeyPair.Priv, m.RecipientAddr))
+						}
+					}
+					for i := range keep {
+						if keep[i].RecipientAddr == w.Nodes[V].Name {
+							vi = i
+						}
+					}
+					res.ResultMsgs = keep
+				case "deal-garbled-and-dated-in-the-future":
+					req.Deal = req.Deal[:len(req.Deal)*2/3]
+					req.CreatedAt = req.CreatedAt.AddDate(10, 0, 0)
 				case "deal-truncated":
 					req.Deal = req.Deal[:len(req.Deal)*2/3]
 				case "deal-bit-flipped":
@@ -364,6 +390,26 @@ func runC11(r *kit.Run, n, t, D, V int, dv deviation, allOrders bool) {
 		}
 	}
 	run = &DKGRun{N: n, T: t, Deviate: deviate, Linear: !allOrders}
+	if dv.Kind == "deal-garbled-others-kept-waiting" {
+		run.Adversary = func(s *worldx.State) [][]storage.Message {
+			if len(withheld) == 0 {
+				return nil
+			}
+			reported, posted := false, false
+			for _, m := range s.Log {
+				if m.SenderAddr == run.W.Nodes[V].Name && strings.HasSuffix(m.Event, "_canceled_by_error") {
+					reported = true
+				}
+				if m.SenderAddr == run.W.Nodes[D].Name && m.Event == withheld[0].Event && m.RecipientAddr == withheld[0].RecipientAddr {
+					posted = true
+				}
+			}
+			if reported && !posted {
+				return [][]storage.Message{withheld}
+			}
+			return nil
+		}
+	}
 	run.OnMachinePanic = func(s *worldx.State, node int, op *types.Operation, p *world.MachinePanic) {
 		site := PanicSite([]byte(p.Stack))
 		r.Violation("C11/machine-crashed/"+dv.Kind, fmt.Sprintf("%s: the airgapped machine of participant %d crashed while processing %s (in %s): %v — it must refuse the deal and report an error", label, node, op.Type, site, p.V), map[string]interface{}{"scenario": label, "trace": s.Trace()})
